@@ -44,6 +44,112 @@ def spec_functions(E, units, ut, T, loops_to, loops_from):
     return '\n'.join(lines) + '\n', 'phqv_spec_conv_' + idn
 
 
+def stub_text(E, lf, N):
+    """Callee contract of a Conversions<U,u>::{To,From}Standard<T>(values, size) for size == N, as a generated stub:
+    requires asserted, ensures established (values[k] becomes U(old values[k]) for k < N, nothing else written)."""
+    pv, ps = lf.params[0][0], lf.params[1][0]
+    body = '\n'.join('  %s[%d] = %s(%s[%d]);' % (pv, k, uf_name(lf), pv, k) for k in range(N))
+    return '%s\n{\n  __CPROVER_assert(%s == %d, "callee contract requires size == %d");\n%s\n}' % (E.proto(lf), ps, N, N, body)
+
+
+def entry_point_job(check, units, ut, T, f, N, name, kind):
+    """CBMC obligation for one conversion entry point f of unit type ut: every component k of the result equals
+    Conv(component k of the input, original_unit, new_unit); in-place forms write only their argument, copying forms
+    write nothing.  kind: 'inplace' | 'copy'."""
+    from ..ieeeob import cleaves
+    low = units.low
+    loops_to = units.loop_funcs(ut, T, 'To')
+    loops_from = units.loop_funcs(ut, T, 'From')
+    ob = Ob(name, 'IEEE', f.qualname, '%s:%s' % (os.path.relpath(f.loc[0], astload.REPO), f.loc[1]))
+    try:
+        E = cemit.CEmitter(low)
+        spec, conv = spec_functions(E, units, ut, T, loops_to, loops_from)
+        spec += 'static _Bool phqv_same(%s a, %s b) { return a == b || (a != a && b != b); }\n' % (T, T)
+        vals = [v for _, v in units.enumerators(ut)]
+        lo, hi = min(vals), max(vals)
+        (vn, vt), (on, _), (nn, _) = f.params
+        clauses = ['__CPROVER_requires(%s >= %d && %s <= %d && %s >= %d && %s <= %d)' % (on, lo, on, hi, nn, lo, nn, hi)]
+        if vt[0] == 'ptr':
+            inl = cleaves(low, vn, vt[1], arrow=True)
+        else:
+            inl = cleaves(low, vn, vt)
+        if kind == 'inplace':
+            clauses.append('__CPROVER_assigns(*%s)' % vn)
+            for x in inl:
+                clauses.append('__CPROVER_ensures(phqv_same(%s, %s(__CPROVER_old(%s), %s, %s)))' % (x, conv, x, on, nn))
+            nexp = len(inl)
+        else:
+            clauses.append('__CPROVER_assigns()')
+            outl = cleaves(low, '__CPROVER_return_value', f.ret)
+            if len(outl) != len(inl):
+                raise Unsupported('component count of result and argument differ')
+            for y, x in zip(outl, inl):
+                clauses.append('__CPROVER_ensures(phqv_same(%s, %s(%s, %s, %s)))' % (y, conv, ('__CPROVER_old(%s)' % x) if vt[0] != 'ptr' else x, on, nn))
+            nexp = len(outl)
+        stubs, stubbed = [], []
+        for lf in list(loops_to.values()) + list(loops_from.values()):
+            stubs.append(stub_text(E, lf, N))
+            stubbed.append(lf.cname)
+        decl = []
+        args = []
+        for pn, pt in f.params:
+            if pt[0] == 'ptr':
+                decl.append('%s in_%s;' % (E.ctype(pt[1]), pn))
+                args.append('&in_%s' % pn)
+            else:
+                decl.append('%s in_%s;' % (E.ctype(pt), pn))
+                args.append('in_%s' % pn)
+        call = '%s(%s)' % (f.cname, ', '.join(args))
+        if f.ret != ('void',):
+            call = '%s r = %s' % (E.ctype(f.ret), call)
+        harness = 'void harness(void) { %s %s; }\n' % (' '.join(decl), call)
+        txt = E.unit([f], contracts={f.cname: clauses}, extra=spec, bodyless=stubbed) + '\n'.join(stubs) + '\n' + harness
+        ob.text = '\n'.join(clauses[:6]) + ('\n...' if len(clauses) > 6 else '')
+        r = cbmc.verify(txt, os.path.join(check.work, 'cbmc'), re.sub(r'\W+', '_', name), enforce=f.cname, backend='sat', timeout=300)
+        ob.seconds, ob.backend = r.seconds, r.backend
+        post = [p for p in r.props if '.postcondition' in p[0]]
+        if r.status == 'ok':
+            if len(post) != nexp:
+                ob.status, ob.detail = 'error', 'vacuity: %d ensures planned, %d postconditions reported' % (nexp, len(post))
+            else:
+                ob.status = 'discharged'
+        elif r.status == 'failed':
+            ob.status = 'failed'
+            ob.detail = 'cbmc FAILURE: ' + '; '.join('%s (%s)' % (p[0], p[2][:90]) for p in r.failed()[:5])
+            ob.cex = r.trace
+        else:
+            ob.status, ob.detail = 'undecided', '%s %s' % (r.status, r.note[:300])
+    except Unsupported as e:
+        ob.status, ob.detail = 'error', 'Unsupported: %s' % e
+    return ob
+
+
+def find_entry(units, name, ut, T, shape):
+    """Instantiated PhQ::<name><ut, [N,] T> whose first parameter has the given shape: 'scalar', 'array<N>', or a
+    record template name (PlanarVector, Vector, SymmetricDyad, Dyad)."""
+    low, a = units.low, units.ast
+    for o in a.walk():
+        if o.get('kind') == 'FunctionDecl' and o.get('name') == name and low.has_body(o) and \
+                any(c.get('kind') == 'TemplateArgument' for c in o.get('inner', ())):
+            ps = [c for c in o.get('inner', ()) if c.get('kind') == 'ParmVarDecl']
+            if len(ps) != 3:
+                continue
+            try:
+                t0, t1 = low.ntype(ps[0]), low.ntype(ps[1])
+            except (Unsupported, ValueError):
+                continue
+            if t1 != ('enum', ut):
+                continue
+            v = t0[1] if t0[0] == 'ref' else t0
+            if shape == 'scalar' and v == ('f', T):
+                return low.lower_func(o)
+            if shape.startswith('array') and v[0] == 'sarr' and v[1] == ('f', T) and v[2] == int(shape[6:-1]):
+                return low.lower_func(o)
+            if v[0] == 'rec' and v[1] == '%s<%s>' % (shape, T):
+                return low.lower_func(o)
+    raise Unsupported('%s<%s, %s> (%s) not instantiated' % (name, ut, T, shape))
+
+
 def find_convert_in_place(units, ut, T, shape='scalar'):
     """The instantiated PhQ::ConvertInPlace<ut, T>(T&, ut, ut)."""
     low = units.low
